@@ -56,5 +56,12 @@ theorem C14_trans_parseRPCName : ∀ s : GB.Bytes,
       simp only [hpos, hidx, Bool.true_and, GB.C14.parseRPCName, stripSlash, GB.C14.slash, hb, Bool.false_eq_true, if_false, h,
         cutByte_slash]
 
+/-- bridgedesc `CanonicalRPCName` (`fmt.Sprintf("/%s/%s", svc, method)`: plain concatenation — the argument
+    types have no String/Format methods, the translator checks) -/
+theorem C14_trans_CanonicalRPCName : ∀ svc m : GB.Bytes,
+    GB.Generated.Trans.CanonicalRPCName svc m = GB.C14.canonicalRPCName svc m := by
+  intro svc m
+  simp [GB.Generated.Trans.CanonicalRPCName, GB.C14.canonicalRPCName, GB.C14.slash]
+
 example : GB.Generated.Trans.parseRPCName [47, 97, 47, 98] = ([97], [98], true) := by decide
 example : GB.Generated.Trans.parseRPCName [97] = ([97], [], false) := by decide
